@@ -108,7 +108,19 @@ func overlaySource(repo string) (string, error) {
 	sb.WriteString("func (o *ZzObj) Encode(buf *bytes.Buffer) error {\n\tif o.V == 0xFFFF {\n\t\treturn errors.New(\"zz: element refuses to encode\")\n\t}\n\treturn WriteBasicType(buf, o.V)\n}\n")
 	sb.WriteString("func (o *ZzObj) Decode(buf *bytes.Buffer) error { v, err := ReadBasicType[uint16](buf); o.V = v; return err }\n")
 	sb.WriteString("func NewZzObj() *ZzObj { return &ZzObj{} }\n\n")
+	// a named (defined) prefix type: guards written as a type switch or a table over the predeclared types miss it
+	sb.WriteString("type ZzU8 uint8\n\n")
 	sb.WriteString("var zzVerifSink []any\n\nfunc zzVerifInst() {\n")
+	for _, g := range gfs {
+		switch {
+		case (g.name == "WriteString" || g.name == "WriteStringLE") && len(g.doms) == 1:
+			fmt.Fprintf(&sb, "\tzzVerifSink = append(zzVerifSink, %s[ZzU8])\n", g.name)
+		case (g.name == "WriteBasicTypeList" || g.name == "WriteBasicTypeListLE") && len(g.doms) == 2:
+			fmt.Fprintf(&sb, "\tzzVerifSink = append(zzVerifSink, %s[ZzU8, uint16])\n", g.name)
+		case (g.name == "WriteObjectList" || g.name == "WriteObjectListLE") && len(g.doms) == 2:
+			fmt.Fprintf(&sb, "\tzzVerifSink = append(zzVerifSink, %s[ZzU8, *ZzObj])\n", g.name)
+		}
+	}
 	for _, g := range gfs {
 		combos := [][]string{{}}
 		for _, dom := range g.doms {
